@@ -228,16 +228,25 @@ def run(repo: Repo, chk: Check) -> None:
                                what=f'validator accepts prefixes without a table row: {missing}')
     chk.minimum('validators', nvalid, 9)
     v = repo.func(f'{ENC}._validate')
-    it = Interp(repo, _ValidateHooks(), max_depth=1)
-    res = it.run_function(v, [Sym('v', 'bytes'), [b'AA', b'BB']])
-    acc = [p for p in res if p.outcome == 'return']
-    ok = all(any(e == ('decode-called',) or e == 'decode-called' for e in p.events) for p in acc) and \
-        all(any(vrepr(t).startswith('mcall:startswith') and b for t, b in p.conds) or True for p in acc)
-    rej = [p for p in res if p.outcome == 'raise']
-    chk.ob('R-PATH', f'{ENC}._validate', bool(acc) and ok and all(p.value.cls == 'ValueError' for p in rej) and bool(rej),
-           'accept-implies-decode', v.loc,
-           {'accepting_paths': [p.cond_repr() for p in acc], 'rejecting_paths': [p.cond_repr() for p in rej]},
-           what='_validate can accept without running base58_decode (checksum) or rejects with a non-ValueError')
+    # decided on abstract strings of which the first bytes and the bytes occurring later are known: accepted (and handed to base58_decode, which
+    # checks length and checksum) exactly when the string STARTS with one of the prefixes
+    vcases = [
+        ('starts with a listed prefix', PStr(b'AA', set()), True),
+        ('starts with the second listed prefix', PStr(b'BB', {b'ZZ'}), True),
+        ('starts with a foreign prefix', PStr(b'ZZ', set()), False),
+        ('starts with a foreign prefix but contains a listed one later', PStr(b'ZZ', {b'AA'}), False),
+        ('starts with a foreign prefix and ends with a listed one', PStr(b'ZZ', {b'BB'}, tail=b'BB'), False),
+    ]
+    for what, pv, want in vcases:
+        res = Interp(repo, _ValidateHooks(), max_depth=1).run_function(v, [pv, [b'AA', b'BB']])
+        acc = [p for p in res if p.outcome == 'return']
+        rej = [p for p in res if p.outcome == 'raise']
+        decoded = all(any(e == ('decode-called',) or e == 'decode-called' for e in p.events) for p in acc)
+        ok = (bool(acc) and not rej and decoded) if want else (bool(rej) and not acc and all(p.value.cls == 'ValueError' for p in rej))
+        chk.ob('R-PATH', f'{ENC}._validate', ok, f'a string that {what} is {"checked by base58_decode" if want else "rejected with ValueError"}', v.loc,
+               {'accepting_paths': len(acc), 'rejecting': [vrepr(p.value)[:60] for p in rej], 'decode_called': decoded},
+               what=f'_validate on a string that {what}: {"accepted without base58_decode or rejected" if want else "not rejected (or rejected with a non-ValueError)"} '
+                    f'- validators must test the kind by the START of the string and always run the checksum decode')
 
     # call sites of base58_encode with a statically known payload length
     sites = known = 0
@@ -278,9 +287,41 @@ def _tail_only(p) -> bool:
     return any(isinstance(t, App) and t.op == 'tail-startswith' and b for t, b in p.conds)
 
 
+class PStr:
+    """Abstract byte string: the leading bytes, the byte strings known to occur later in it, and optionally its last bytes."""
+
+    def __init__(self, head: bytes, later: set, tail: bytes = b''):
+        self.head, self.later, self.tail = head, later, tail
+
+    def key(self):
+        return ('pstr', self.head, tuple(sorted(self.later)), self.tail)
+
+    def __deepcopy__(self, memo):
+        return self
+
+
 class _ValidateHooks(Hooks):
     def inline(self, it, fi):
         return fi.name == '_validate'
+
+    def attr(self, it, obj, name, node):
+        if isinstance(obj, PStr):
+            return App('attr', obj, name)
+        return NotImplemented
+
+    def subscript(self, it, obj, idx, node):
+        if isinstance(obj, PStr) and isinstance(idx, slice) and idx.step is None:
+            if idx.start in (None, 0) and isinstance(idx.stop, int) and 0 <= idx.stop <= len(obj.head):
+                return obj.head[:idx.stop]
+            if idx.stop is None and isinstance(idx.start, int) and idx.start < 0 and -idx.start <= len(obj.tail):
+                return obj.tail[idx.start:]
+        return NotImplemented
+
+    def compare(self, it, op, a, b, node):
+        if op in ('in', 'not in') and isinstance(b, PStr) and isinstance(a, bytes):
+            r = b.head.startswith(a) or a in b.later or (bool(b.tail) and a in b.tail)
+            return r if op == 'in' else not r
+        return NotImplemented
 
     def call(self, it, callee, args, kwargs, node):
         from ..absint import FuncRef
@@ -291,12 +332,30 @@ class _ValidateHooks(Hooks):
                 return App('decoded')
             if callee.fi.name == 'scrub_input':
                 return args[0]
+        if isinstance(callee, App) and callee.op == 'attr' and isinstance(callee.args[0], PStr):
+            pv, name = callee.args
+            if name == 'startswith' and isinstance(args[0], (bytes, tuple)):
+                ps = args[0] if isinstance(args[0], tuple) else (args[0],)
+                return any(pv.head.startswith(x) for x in ps)
+            if name == 'endswith' and isinstance(args[0], bytes):
+                return bool(pv.tail) and pv.tail.endswith(args[0])
+            if name in ('find', 'index') and isinstance(args[0], bytes):
+                if pv.head.startswith(args[0]):
+                    return 0
+                if args[0] in pv.later:
+                    return 7
+                if name == 'index':
+                    from ..absint import ExcVal, Raised
+                    raise Raised(ExcVal('ValueError'))
+                return -1
+            if name == 'encode':
+                return pv
         return NotImplemented
 
     def isinstance(self, it, obj, classes):
         from ..absint import Builtin
 
-        if isinstance(obj, Sym) and obj.name == 'v':
+        if (isinstance(obj, Sym) and obj.name == 'v') or isinstance(obj, PStr):
             return any(isinstance(c, Builtin) and c.name == 'bytes' for c in classes)
         return NotImplemented
 
